@@ -201,3 +201,6 @@ def run(chk):
     chk.floor("C17.S binary forms", forms_n, 24)
     chk.notes["n_range"] = [0, nmax]
     chk.notes["configurations"] = ["debug-assertions+overflow-checks on", "both off"]
+    if chk.tier == "thorough":
+        from .. import witnesses
+        witnesses.run(chk, "C17", ['W3'])
